@@ -54,10 +54,20 @@ def main():
     names = sys.argv[1:] or sorted(p.parent.name for p in (HERE / "seeded").glob("*/patch.diff"))
     res_p = HERE / "seeded" / "RESULTS.json"
     res = json.loads(res_p.read_text()) if res_p.exists() else {}
+    # changes of one property run one after another (checks with a translator step rewrite shared Gen/ files);
+    # different properties run in parallel
+    groups = {}
+    for n in names:
+        groups.setdefault(n.split("-")[0], []).append(n)
+
+    def run_group(ns):
+        return [run_one(n) for n in ns]
+
     with ThreadPoolExecutor(max_workers=int(os.environ.get("SEED_JOBS", "3"))) as ex:
-        for name, r in ex.map(run_one, names):
-            res[name] = r
-            print(name, r["result"], flush=True)
+        for rs in ex.map(run_group, groups.values()):
+            for name, r in rs:
+                res[name] = r
+                print(name, r["result"], flush=True)
             res_p.write_text(json.dumps(res, indent=1, sort_keys=True))
 
 
